@@ -978,3 +978,82 @@ func TestBaseHandlers(t *testing.T) {
 		}
 	})
 }
+
+// The wire format spelled out literally: JSON documents are written by hand with the documented member names (not by
+// marshalling the library's structs) from drawn values, and the parsers must yield rules with exactly those values.
+func TestWireFieldNames(t *testing.T) {
+	hx.Check(t, hx.N{Quick: 3000, Thorough: 30000}, func(t *rapid.T, c *hx.Case) {
+		u32 := func(l string) uint32 { return uint32(rapid.IntRange(0, 100000).Draw(t, l)) }
+		i64 := func(l string) int64 { return int64(rapid.IntRange(-3, 100000).Draw(t, l)) }
+		fl := func(l string) float64 { return float64(rapid.IntRange(0, 4000).Draw(t, l)) / 8 }
+		str := func(l string) string { return rapid.SampledFrom([]string{"", "a", "svc/b", "x y"}).Draw(t, l) }
+		switch mod := rapid.SampledFrom([]string{"flow", "isolation", "system", "circuitbreaker", "hotspot"}).Draw(t, "module"); mod {
+		case "flow":
+			w := flow.Rule{ID: str("id"), Resource: str("res"), TokenCalculateStrategy: flow.TokenCalculateStrategy(rapid.IntRange(0, 2).Draw(t, "tcs")), ControlBehavior: flow.ControlBehavior(rapid.IntRange(0, 1).Draw(t, "cb")),
+				Threshold: fl("thr"), RelationStrategy: flow.RelationStrategy(rapid.IntRange(0, 1).Draw(t, "rel")), RefResource: str("ref"), MaxQueueingTimeMs: u32("q"), WarmUpPeriodSec: u32("wp"),
+				WarmUpColdFactor: u32("cf"), StatIntervalInMs: u32("iv"), LowMemUsageThreshold: i64("lt"), HighMemUsageThreshold: i64("ht"), MemLowWaterMarkBytes: i64("lm"), MemHighWaterMarkBytes: i64("hm")}
+			doc := fmt.Sprintf(`[{"id":%q,"resource":%q,"tokenCalculateStrategy":%d,"controlBehavior":%d,"threshold":%v,"relationStrategy":%d,"refResource":%q,"maxQueueingTimeMs":%d,"warmUpPeriodSec":%d,"warmUpColdFactor":%d,"statIntervalInMs":%d,"lowMemUsageThreshold":%d,"highMemUsageThreshold":%d,"memLowWaterMarkBytes":%d,"memHighWaterMarkBytes":%d}]`,
+				w.ID, w.Resource, w.TokenCalculateStrategy, w.ControlBehavior, w.Threshold, w.RelationStrategy, w.RefResource, w.MaxQueueingTimeMs, w.WarmUpPeriodSec, w.WarmUpColdFactor, w.StatIntervalInMs, w.LowMemUsageThreshold, w.HighMemUsageThreshold, w.MemLowWaterMarkBytes, w.MemHighWaterMarkBytes)
+			c.Op("%s", doc)
+			got, err := datasource.FlowRuleJsonArrayParser([]byte(doc))
+			if err != nil {
+				t.Fatalf("flow parser rejected %s: %v", doc, err)
+			}
+			if rs := got.([]*flow.Rule); len(rs) != 1 || *rs[0] != w {
+				t.Fatalf("flow document %s decodes to %+v, describes %+v", doc, rs, w)
+			}
+		case "isolation":
+			w := isolation.Rule{ID: str("id"), Resource: str("res"), MetricType: isolation.MetricType(rapid.IntRange(0, 2).Draw(t, "mt")), Threshold: u32("thr")}
+			doc := fmt.Sprintf(`[{"id":%q,"resource":%q,"metricType":%d,"threshold":%d}]`, w.ID, w.Resource, w.MetricType, w.Threshold)
+			c.Op("%s", doc)
+			got, err := datasource.IsolationRuleJsonArrayParser([]byte(doc))
+			if err != nil {
+				t.Fatalf("isolation parser rejected %s: %v", doc, err)
+			}
+			if rs := got.([]*isolation.Rule); len(rs) != 1 || *rs[0] != w {
+				t.Fatalf("isolation document %s decodes to %+v, describes %+v", doc, rs, w)
+			}
+		case "system":
+			w := system.Rule{ID: str("id"), MetricType: system.MetricType(rapid.IntRange(0, 5).Draw(t, "mt")), TriggerCount: fl("trig"), Strategy: system.AdaptiveStrategy(rapid.SampledFrom([]int{-1, 1}).Draw(t, "st"))}
+			doc := fmt.Sprintf(`[{"id":%q,"metricType":%d,"triggerCount":%v,"strategy":%d}]`, w.ID, w.MetricType, w.TriggerCount, w.Strategy)
+			c.Op("%s", doc)
+			got, err := datasource.SystemRuleJsonArrayParser([]byte(doc))
+			if err != nil {
+				t.Fatalf("system parser rejected %s: %v", doc, err)
+			}
+			if rs := got.([]*system.Rule); len(rs) != 1 || *rs[0] != w {
+				t.Fatalf("system document %s decodes to %+v, describes %+v", doc, rs, w)
+			}
+		case "circuitbreaker":
+			w := cb.Rule{Id: str("id"), Resource: str("res"), Strategy: cb.Strategy(rapid.IntRange(0, 3).Draw(t, "st")), RetryTimeoutMs: u32("retry"), MinRequestAmount: uint64(u32("min")), StatIntervalMs: u32("iv"),
+				StatSlidingWindowBucketCount: u32("bc"), MaxAllowedRtMs: uint64(u32("rt")), Threshold: fl("thr"), ProbeNum: uint64(u32("probe"))}
+			doc := fmt.Sprintf(`[{"id":%q,"resource":%q,"strategy":%d,"retryTimeoutMs":%d,"minRequestAmount":%d,"statIntervalMs":%d,"statSlidingWindowBucketCount":%d,"maxAllowedRtMs":%d,"threshold":%v,"probeNum":%d}]`,
+				w.Id, w.Resource, w.Strategy, w.RetryTimeoutMs, w.MinRequestAmount, w.StatIntervalMs, w.StatSlidingWindowBucketCount, w.MaxAllowedRtMs, w.Threshold, w.ProbeNum)
+			c.Op("%s", doc)
+			got, err := datasource.CircuitBreakerRuleJsonArrayParser([]byte(doc))
+			if err != nil {
+				t.Fatalf("circuitbreaker parser rejected %s: %v", doc, err)
+			}
+			if rs := got.([]*cb.Rule); len(rs) != 1 || *rs[0] != w {
+				t.Fatalf("circuitbreaker document %s decodes to %+v, describes %+v", doc, rs, w)
+			}
+		case "hotspot":
+			w := hotspot.Rule{ID: str("id"), Resource: str("res"), MetricType: hotspot.MetricType(rapid.IntRange(0, 1).Draw(t, "mt")), ControlBehavior: hotspot.ControlBehavior(rapid.IntRange(0, 1).Draw(t, "cb")), ParamIndex: int(i64("idx")),
+				Threshold: i64("thr"), MaxQueueingTimeMs: i64("q"), BurstCount: i64("burst"), DurationInSec: i64("dur"), ParamsMaxCapacity: i64("cap"), SpecificItems: map[interface{}]int64{}}
+			iv, sv, bv := rapid.IntRange(-1000000, 1000000).Draw(t, "intItem"), str("strItem"), rapid.Bool().Draw(t, "boolItem")
+			it, stt, bt := i64("it"), i64("stt"), i64("bt")
+			w.SpecificItems[iv], w.SpecificItems[sv], w.SpecificItems[bv], w.SpecificItems[2.5] = it, stt, bt, 9
+			doc := fmt.Sprintf(`[{"id":%q,"resource":%q,"metricType":%d,"controlBehavior":%d,"paramIndex":%d,"threshold":%d,"maxQueueingTimeMs":%d,"burstCount":%d,"durationInSec":%d,"paramsMaxCapacity":%d,"specificItems":[{"valKind":0,"valStr":"%d","threshold":%d},{"valKind":1,"valStr":%q,"threshold":%d},{"valKind":2,"valStr":"%v","threshold":%d},{"valKind":3,"valStr":"2.5","threshold":9}]}]`,
+				w.ID, w.Resource, w.MetricType, w.ControlBehavior, w.ParamIndex, w.Threshold, w.MaxQueueingTimeMs, w.BurstCount, w.DurationInSec, w.ParamsMaxCapacity, iv, it, sv, stt, bv, bt)
+			c.Op("%s", doc)
+			got, err := datasource.HotSpotParamRuleJsonArrayParser([]byte(doc))
+			if err != nil {
+				t.Fatalf("hotspot parser rejected %s: %v", doc, err)
+			}
+			if rs := got.([]*hotspot.Rule); len(rs) != 1 || !reflect.DeepEqual(*rs[0], w) {
+				t.Fatalf("hotspot document %s decodes to %+v, describes %+v", doc, rs, w)
+			}
+		}
+		c.NonTrivial()
+	})
+}
